@@ -1,2 +1,1317 @@
-pub fn run(_w: &mut dyn std::io::Write, _family: &str, _nseq: u64, _nsteps: u64, _seed: u64) {}
-pub fn replay(_w: &mut dyn std::io::Write, _lines: &[String]) {}
+//! World families: the three contracts + cw20-base inside a cw-multi-test `App`, driven by generated
+//! operation sequences.  One line per step with the implementation's result, followed by the
+//! observations (balances, supplies, allowances, pair / pool / registry queries) that changed.
+//! Addresses and denoms are numbered; the driver only ever sees the numbers (plus the raw id bytes
+//! and display text of every asset).  Protocol: DESIGN Appendix A.
+use crate::fnfam::GUARDED;
+use crate::rng::*;
+use crate::text::hex;
+use bignumber::Decimal256;
+use cosmwasm_std::testing::MockApi;
+use cosmwasm_std::{to_binary, Addr, Api, Coin, Decimal, Empty, Uint128};
+use cw20::{BalanceResponse, Cw20Coin, Cw20ExecuteMsg, Cw20QueryMsg, MinterResponse, TokenInfoResponse};
+use cw_multi_test::{App, AppBuilder, AppResponse, Contract, ContractWrapper, Executor};
+use haloswap::asset::{Asset, AssetInfo, CreatePairRequirements, LPTokenInfo, PairInfo};
+use haloswap::factory::{
+    ConfigResponse, ExecuteMsg as FacExec, InstantiateMsg as FacInit, NativeTokenDecimalsResponse, PairsResponse,
+    QueryMsg as FacQuery,
+};
+use haloswap::pair::{
+    Cw20HookMsg as PairHook, ExecuteMsg as PairExec, PoolResponse, QueryMsg as PairQuery, ReverseSimulationResponse,
+    SimulationResponse,
+};
+use haloswap::router::{
+    Cw20HookMsg as RouterHook, ExecuteMsg as RouterExec, InstantiateMsg as RouterInit, QueryMsg as RouterQuery,
+    SimulateSwapOperationsResponse, SwapOperation,
+};
+use std::collections::HashMap;
+use std::io::Write;
+use std::panic::{catch_unwind, AssertUnwindSafe};
+use std::sync::atomic::Ordering;
+
+fn c_factory() -> Box<dyn Contract<Empty>> {
+    Box::new(
+        ContractWrapper::new(
+            halo_factory::contract::execute,
+            halo_factory::contract::instantiate,
+            halo_factory::contract::query,
+        )
+        .with_reply(halo_factory::contract::reply)
+        .with_migrate(halo_factory::contract::migrate),
+    )
+}
+fn c_pair() -> Box<dyn Contract<Empty>> {
+    Box::new(
+        ContractWrapper::new(halo_pair::contract::execute, halo_pair::contract::instantiate, halo_pair::contract::query)
+            .with_reply(halo_pair::contract::reply)
+            .with_migrate(halo_pair::contract::migrate),
+    )
+}
+fn c_router() -> Box<dyn Contract<Empty>> {
+    Box::new(ContractWrapper::new(
+        halo_router::contract::execute,
+        halo_router::contract::instantiate,
+        halo_router::contract::query,
+    ))
+}
+fn c_token() -> Box<dyn Contract<Empty>> {
+    Box::new(ContractWrapper::new(
+        cw20_base::contract::execute,
+        cw20_base::contract::instantiate,
+        cw20_base::contract::query,
+    ))
+}
+
+#[derive(Clone, Copy, PartialEq, Eq, Hash, Debug)]
+pub enum A {
+    N(u64),
+    T(u64),
+}
+impl std::fmt::Display for A {
+    fn fmt(&self, f: &mut std::fmt::Formatter) -> std::fmt::Result {
+        match self {
+            A::N(d) => write!(f, "n{d}"),
+            A::T(t) => write!(f, "t{t}"),
+        }
+    }
+}
+fn parse_asset(s: &str) -> A {
+    let n: u64 = s[1..].parse().unwrap();
+    if s.starts_with('n') {
+        A::N(n)
+    } else {
+        A::T(n)
+    }
+}
+
+#[derive(Clone, Debug)]
+pub enum Hook {
+    Swap { offer: A, amt: u128, belief: Option<u128>, ms: Option<u128>, to: Option<u64> },
+    Withdraw,
+    ROps { ops: Vec<(A, A)>, min: Option<u128>, to: Option<u64> },
+    Garbage,
+}
+
+fn o<T: ToString>(x: &Option<T>) -> String {
+    match x {
+        Some(v) => v.to_string(),
+        None => "-".into(),
+    }
+}
+fn po<T: std::str::FromStr>(s: &str) -> Option<T> {
+    if s == "-" {
+        None
+    } else {
+        s.parse().ok()
+    }
+}
+fn ops_str(ops: &[(A, A)]) -> String {
+    if ops.is_empty() {
+        "-".into()
+    } else {
+        ops.iter().map(|(a, b)| format!("{a}>{b}")).collect::<Vec<_>>().join(";")
+    }
+}
+fn parse_ops(s: &str) -> Vec<(A, A)> {
+    if s == "-" {
+        vec![]
+    } else {
+        s.split(';')
+            .map(|h| {
+                let (a, b) = h.split_once('>').unwrap();
+                (parse_asset(a), parse_asset(b))
+            })
+            .collect()
+    }
+}
+impl std::fmt::Display for Hook {
+    fn fmt(&self, f: &mut std::fmt::Formatter) -> std::fmt::Result {
+        match self {
+            Hook::Swap { offer, amt, belief, ms, to } => write!(f, "swap:{offer}:{amt}:{}:{}:{}", o(belief), o(ms), o(to)),
+            Hook::Withdraw => write!(f, "withdraw"),
+            Hook::ROps { ops, min, to } => write!(f, "rops:{}:{}:{}", ops_str(ops), o(min), o(to)),
+            Hook::Garbage => write!(f, "garbage"),
+        }
+    }
+}
+fn parse_hook(s: &str) -> Hook {
+    let p: Vec<&str> = s.split(':').collect();
+    match p[0] {
+        "swap" => Hook::Swap { offer: parse_asset(p[1]), amt: p[2].parse().unwrap(), belief: po(p[3]), ms: po(p[4]), to: po(p[5]) },
+        "withdraw" => Hook::Withdraw,
+        "rops" => Hook::ROps { ops: parse_ops(p[1]), min: po(p[2]), to: po(p[3]) },
+        _ => Hook::Garbage,
+    }
+}
+
+type Coins = Vec<(u64, u128)>;
+fn coins_str(c: &Coins) -> String {
+    if c.is_empty() {
+        "-".into()
+    } else {
+        c.iter().map(|(d, a)| format!("{d}:{a}")).collect::<Vec<_>>().join(",")
+    }
+}
+fn parse_coins(s: &str) -> Coins {
+    if s == "-" {
+        vec![]
+    } else {
+        s.split(',')
+            .map(|c| {
+                let (d, a) = c.split_once(':').unwrap();
+                (d.parse().unwrap(), a.parse().unwrap())
+            })
+            .collect()
+    }
+}
+
+#[derive(Clone, Debug)]
+pub enum Op {
+    BankSend { s: u64, d: u64, coins: Coins },
+    TokTransfer { t: u64, s: u64, d: u64, amt: u128 },
+    TokSend { t: u64, s: u64, d: u64, amt: u128, hook: Hook },
+    TokInc { t: u64, owner: u64, spender: u64, amt: u128 },
+    TokBurn { t: u64, s: u64, amt: u128 },
+    Provide { s: u64, p: u64, funds: Coins, as0: A, am0: u128, as1: A, am1: u128, tol: Option<u128>, rcv: Option<u64> },
+    Swap { s: u64, p: u64, funds: Coins, offer: A, amt: u128, belief: Option<u128>, ms: Option<u128>, to: Option<u64> },
+    PairReceive { s: u64, p: u64, funds: Coins, from: u64, amount: u128, hook: Hook },
+    PairUpd { s: u64, p: u64, funds: Coins, denom: u64, da: u8, db: u8 },
+    ROps { s: u64, funds: Coins, ops: Vec<(A, A)>, min: Option<u128>, to: Option<u64> },
+    ROp { s: u64, funds: Coins, offer: A, ask: A, to: Option<u64> },
+    RAssert { s: u64, funds: Coins, asset: A, prev: u128, min: u128, rcv: u64 },
+    RReceive { s: u64, funds: Coins, from: u64, amount: u128, hook: Hook },
+    FCfg { s: u64, funds: Coins, owner: Option<u64> },
+    FCreate { s: u64, funds: Coins, a0: A, a1: A, wl: Vec<u64>, min0: u128, min1: u128, comm: Option<u128> },
+    FAdd { s: u64, funds: Coins, denom: u64, decimals: u8 },
+    FMig { s: u64, funds: Coins, p: u64 },
+}
+
+fn list_str(v: &[u64]) -> String {
+    if v.is_empty() {
+        "-".into()
+    } else {
+        v.iter().map(|x| x.to_string()).collect::<Vec<_>>().join(",")
+    }
+}
+
+impl std::fmt::Display for Op {
+    fn fmt(&self, f: &mut std::fmt::Formatter) -> std::fmt::Result {
+        match self {
+            Op::BankSend { s, d, coins } => write!(f, "bank_send {s} {d} {}", coins_str(coins)),
+            Op::TokTransfer { t, s, d, amt } => write!(f, "tok_transfer {t} {s} {d} {amt}"),
+            Op::TokSend { t, s, d, amt, hook } => write!(f, "tok_send {t} {s} {d} {amt} {hook}"),
+            Op::TokInc { t, owner, spender, amt } => write!(f, "tok_inc {t} {owner} {spender} {amt}"),
+            Op::TokBurn { t, s, amt } => write!(f, "tok_burn {t} {s} {amt}"),
+            Op::Provide { s, p, funds, as0, am0, as1, am1, tol, rcv } => {
+                write!(f, "pair_provide {s} {p} {} {as0} {am0} {as1} {am1} {} {}", coins_str(funds), o(tol), o(rcv))
+            }
+            Op::Swap { s, p, funds, offer, amt, belief, ms, to } => {
+                write!(f, "pair_swap {s} {p} {} {offer} {amt} {} {} {}", coins_str(funds), o(belief), o(ms), o(to))
+            }
+            Op::PairReceive { s, p, funds, from, amount, hook } => {
+                write!(f, "pair_receive {s} {p} {} {from} {amount} {hook}", coins_str(funds))
+            }
+            Op::PairUpd { s, p, funds, denom, da, db } => write!(f, "pair_upd {s} {p} {} {denom} {da} {db}", coins_str(funds)),
+            Op::ROps { s, funds, ops, min, to } => write!(f, "r_ops {s} {} {} {} {}", coins_str(funds), ops_str(ops), o(min), o(to)),
+            Op::ROp { s, funds, offer, ask, to } => write!(f, "r_op {s} {} {offer} {ask} {}", coins_str(funds), o(to)),
+            Op::RAssert { s, funds, asset, prev, min, rcv } => write!(f, "r_assert {s} {} {asset} {prev} {min} {rcv}", coins_str(funds)),
+            Op::RReceive { s, funds, from, amount, hook } => write!(f, "r_receive {s} {} {from} {amount} {hook}", coins_str(funds)),
+            Op::FCfg { s, funds, owner } => write!(f, "f_cfg {s} {} {}", coins_str(funds), o(owner)),
+            Op::FCreate { s, funds, a0, a1, wl, min0, min1, comm } => {
+                write!(f, "f_create {s} {} {a0} {a1} {} {min0} {min1} {}", coins_str(funds), list_str(wl), o(comm))
+            }
+            Op::FAdd { s, funds, denom, decimals } => write!(f, "f_add {s} {} {denom} {decimals}", coins_str(funds)),
+            Op::FMig { s, funds, p } => write!(f, "f_mig {s} {} {p}", coins_str(funds)),
+        }
+    }
+}
+
+pub fn parse_op(t: &[&str]) -> Op {
+    let n = |i: usize| -> u64 { t[i].parse().unwrap() };
+    let a = |i: usize| -> u128 { t[i].parse().unwrap() };
+    match t[0] {
+        "bank_send" => Op::BankSend { s: n(1), d: n(2), coins: parse_coins(t[3]) },
+        "tok_transfer" => Op::TokTransfer { t: n(1), s: n(2), d: n(3), amt: a(4) },
+        "tok_send" => Op::TokSend { t: n(1), s: n(2), d: n(3), amt: a(4), hook: parse_hook(t[5]) },
+        "tok_inc" => Op::TokInc { t: n(1), owner: n(2), spender: n(3), amt: a(4) },
+        "tok_burn" => Op::TokBurn { t: n(1), s: n(2), amt: a(3) },
+        "pair_provide" => Op::Provide {
+            s: n(1), p: n(2), funds: parse_coins(t[3]), as0: parse_asset(t[4]), am0: a(5), as1: parse_asset(t[6]), am1: a(7),
+            tol: po(t[8]), rcv: po(t[9]),
+        },
+        "pair_swap" => Op::Swap {
+            s: n(1), p: n(2), funds: parse_coins(t[3]), offer: parse_asset(t[4]), amt: a(5), belief: po(t[6]), ms: po(t[7]), to: po(t[8]),
+        },
+        "pair_receive" => Op::PairReceive { s: n(1), p: n(2), funds: parse_coins(t[3]), from: n(4), amount: a(5), hook: parse_hook(t[6]) },
+        "pair_upd" => Op::PairUpd { s: n(1), p: n(2), funds: parse_coins(t[3]), denom: n(4), da: n(5) as u8, db: n(6) as u8 },
+        "r_ops" => Op::ROps { s: n(1), funds: parse_coins(t[2]), ops: parse_ops(t[3]), min: po(t[4]), to: po(t[5]) },
+        "r_op" => Op::ROp { s: n(1), funds: parse_coins(t[2]), offer: parse_asset(t[3]), ask: parse_asset(t[4]), to: po(t[5]) },
+        "r_assert" => Op::RAssert { s: n(1), funds: parse_coins(t[2]), asset: parse_asset(t[3]), prev: a(4), min: a(5), rcv: n(6) },
+        "r_receive" => Op::RReceive { s: n(1), funds: parse_coins(t[2]), from: n(3), amount: a(4), hook: parse_hook(t[5]) },
+        "f_cfg" => Op::FCfg { s: n(1), funds: parse_coins(t[2]), owner: po(t[3]) },
+        "f_create" => Op::FCreate {
+            s: n(1), funds: parse_coins(t[2]), a0: parse_asset(t[3]), a1: parse_asset(t[4]),
+            wl: if t[5] == "-" { vec![] } else { t[5].split(',').map(|x| x.parse().unwrap()).collect() },
+            min0: a(6), min1: a(7), comm: po(t[8]),
+        },
+        "f_add" => Op::FAdd { s: n(1), funds: parse_coins(t[2]), denom: n(3), decimals: n(4) as u8 },
+        "f_mig" => Op::FMig { s: n(1), funds: parse_coins(t[2]), p: n(3) },
+        x => panic!("unknown op {x}"),
+    }
+}
+
+#[derive(Clone, Debug)]
+pub struct PairMeta {
+    pub addr: u64,
+    pub lp: u64,
+    pub a0: A,
+    pub a1: A,
+}
+
+pub struct Env<'a> {
+    pub app: App,
+    pub w: &'a mut dyn Write,
+    pub addr_id: HashMap<String, u64>,
+    pub addrs: Vec<String>,
+    pub denoms: Vec<String>, // id = index
+    pub factory: u64,
+    pub router: u64,
+    pub users: Vec<u64>,
+    pub tokens: Vec<u64>,
+    pub pairs: Vec<PairMeta>,
+    pub accounts: Vec<u64>,
+    pub assets: Vec<A>,
+    pub allow_watch: Vec<(u64, u64, u64)>, // (token, owner, spender)
+    pub last: HashMap<String, String>,
+    pub seq: u64,
+    pub stepno: u64,
+    pub token_code: u64,
+    pub pair_code: u64,
+}
+
+const USER_NAMES: [&str; 6] = ["owner000", "user0001", "user0002", "user0003", "rogue004", "newowner5"];
+// denoms chosen so that concatenations collide: "uaura"+"uusd" == "uaurau"+"usd"
+const DENOMS: [(&str, u8); 6] = [("uaura", 6), ("uusd", 6), ("uaurau", 18), ("usd", 0), ("ibc/1F", 8), ("uaurauusd", 6)];
+
+impl<'a> Env<'a> {
+    fn aid(&mut self, s: &str) -> u64 {
+        if let Some(i) = self.addr_id.get(s) {
+            return *i;
+        }
+        let i = self.addrs.len() as u64;
+        self.addrs.push(s.to_string());
+        self.addr_id.insert(s.to_string(), i);
+        i
+    }
+    fn addr(&self, i: u64) -> Addr {
+        Addr::unchecked(self.addrs[i as usize].clone())
+    }
+    fn astr(&self, i: u64) -> String {
+        self.addrs[i as usize].clone()
+    }
+    fn info(&self, a: A) -> AssetInfo {
+        match a {
+            A::N(d) => AssetInfo::NativeToken { denom: self.denoms[d as usize].clone() },
+            A::T(t) => AssetInfo::Token { contract_addr: self.astr(t) },
+        }
+    }
+    fn coins(&self, c: &Coins) -> Vec<Coin> {
+        c.iter().map(|(d, a)| Coin { denom: self.denoms[*d as usize].clone(), amount: Uint128::new(*a) }).collect()
+    }
+    fn decl_asset(&mut self, a: A) {
+        let (raw, name) = match a {
+            A::N(d) => (self.denoms[d as usize].as_bytes().to_vec(), self.denoms[d as usize].clone()),
+            A::T(t) => {
+                let s = self.astr(t);
+                (MockApi::default().addr_canonicalize(&s).unwrap().as_slice().to_vec(), s)
+            }
+        };
+        let rawhex: String = raw.iter().map(|b| format!("{:02x}", b)).collect();
+        writeln!(self.w, "asset {a} raw=h{rawhex} name={}", hex(&name)).unwrap();
+    }
+
+    pub fn bal(&self, a: A, who: u64) -> u128 {
+        match a {
+            A::N(d) => self.app.wrap().query_balance(self.astr(who), self.denoms[d as usize].clone()).unwrap().amount.u128(),
+            A::T(t) => {
+                let r: BalanceResponse =
+                    self.app.wrap().query_wasm_smart(self.astr(t), &Cw20QueryMsg::Balance { address: self.astr(who) }).unwrap();
+                r.balance.u128()
+            }
+        }
+    }
+    pub fn supply(&self, t: u64) -> u128 {
+        let r: TokenInfoResponse = self.app.wrap().query_wasm_smart(self.astr(t), &Cw20QueryMsg::TokenInfo {}).unwrap();
+        r.total_supply.u128()
+    }
+
+    fn hook_bin(&self, h: &Hook, for_router: bool) -> cosmwasm_std::Binary {
+        match h {
+            Hook::Swap { offer, amt, belief, ms, to } => to_binary(&PairHook::Swap {
+                offer_asset: Asset { info: self.info(*offer), amount: Uint128::new(*amt) },
+                belief_price: belief.map(Decimal::raw),
+                max_spread: ms.map(Decimal::raw),
+                to: to.map(|x| self.astr(x)),
+            })
+            .unwrap(),
+            Hook::Withdraw => to_binary(&PairHook::WithdrawLiquidity {}).unwrap(),
+            Hook::ROps { ops, min, to } => to_binary(&RouterHook::ExecuteSwapOperations {
+                operations: self.swap_ops(ops),
+                minimum_receive: min.map(Uint128::new),
+                to: to.map(|x| self.astr(x)),
+            })
+            .unwrap(),
+            Hook::Garbage => {
+                let _ = for_router;
+                cosmwasm_std::Binary::from(b"{\"nonsense\":{}}".to_vec())
+            }
+        }
+    }
+    fn swap_ops(&self, ops: &[(A, A)]) -> Vec<SwapOperation> {
+        ops.iter()
+            .map(|(a, b)| SwapOperation::HaloSwap { offer_asset_info: self.info(*a), ask_asset_info: self.info(*b) })
+            .collect()
+    }
+
+    /// run one operation on the real contracts
+    fn exec(&mut self, op: &Op) -> Result<AppResponse, String> {
+        let app_ptr: *mut App = &mut self.app;
+        let me: &Env = self;
+        let run = || -> Result<AppResponse, String> {
+            // SAFETY: `app` is only touched through this pointer inside the closure
+            let app: &mut App = unsafe { &mut *app_ptr };
+            let r = match op {
+                Op::BankSend { s, d, coins } => app.send_tokens(me.addr(*s), me.addr(*d), &me.coins(coins)),
+                Op::TokTransfer { t, s, d, amt } => app.execute_contract(
+                    me.addr(*s), me.addr(*t),
+                    &Cw20ExecuteMsg::Transfer { recipient: me.astr(*d), amount: Uint128::new(*amt) }, &[]),
+                Op::TokSend { t, s, d, amt, hook } => app.execute_contract(
+                    me.addr(*s), me.addr(*t),
+                    &Cw20ExecuteMsg::Send { contract: me.astr(*d), amount: Uint128::new(*amt), msg: me.hook_bin(hook, *d == me.router) }, &[]),
+                Op::TokInc { t, owner, spender, amt } => app.execute_contract(
+                    me.addr(*owner), me.addr(*t),
+                    &Cw20ExecuteMsg::IncreaseAllowance { spender: me.astr(*spender), amount: Uint128::new(*amt), expires: None }, &[]),
+                Op::TokBurn { t, s, amt } => app.execute_contract(me.addr(*s), me.addr(*t), &Cw20ExecuteMsg::Burn { amount: Uint128::new(*amt) }, &[]),
+                Op::Provide { s, p, funds, as0, am0, as1, am1, tol, rcv } => app.execute_contract(
+                    me.addr(*s), me.addr(*p),
+                    &PairExec::ProvideLiquidity {
+                        assets: [Asset { info: me.info(*as0), amount: Uint128::new(*am0) }, Asset { info: me.info(*as1), amount: Uint128::new(*am1) }],
+                        slippage_tolerance: tol.map(Decimal::raw),
+                        receiver: rcv.map(|x| me.astr(x)),
+                    }, &me.coins(funds)),
+                Op::Swap { s, p, funds, offer, amt, belief, ms, to } => app.execute_contract(
+                    me.addr(*s), me.addr(*p),
+                    &PairExec::Swap {
+                        offer_asset: Asset { info: me.info(*offer), amount: Uint128::new(*amt) },
+                        belief_price: belief.map(Decimal::raw), max_spread: ms.map(Decimal::raw), to: to.map(|x| me.astr(x)),
+                    }, &me.coins(funds)),
+                Op::PairReceive { s, p, funds, from, amount, hook } => app.execute_contract(
+                    me.addr(*s), me.addr(*p),
+                    &PairExec::Receive(cw20::Cw20ReceiveMsg { sender: me.astr(*from), amount: Uint128::new(*amount), msg: me.hook_bin(hook, false) }),
+                    &me.coins(funds)),
+                Op::PairUpd { s, p, funds, denom, da, db } => app.execute_contract(
+                    me.addr(*s), me.addr(*p),
+                    &PairExec::UpdateNativeTokenDecimals { denom: me.denoms[*denom as usize].clone(), asset_decimals: [*da, *db] }, &me.coins(funds)),
+                Op::ROps { s, funds, ops, min, to } => app.execute_contract(
+                    me.addr(*s), me.addr(me.router),
+                    &RouterExec::ExecuteSwapOperations { operations: me.swap_ops(ops), minimum_receive: min.map(Uint128::new), to: to.map(|x| me.astr(x)) },
+                    &me.coins(funds)),
+                Op::ROp { s, funds, offer, ask, to } => app.execute_contract(
+                    me.addr(*s), me.addr(me.router),
+                    &RouterExec::ExecuteSwapOperation {
+                        operation: SwapOperation::HaloSwap { offer_asset_info: me.info(*offer), ask_asset_info: me.info(*ask) },
+                        to: to.map(|x| me.astr(x)),
+                    }, &me.coins(funds)),
+                Op::RAssert { s, funds, asset, prev, min, rcv } => app.execute_contract(
+                    me.addr(*s), me.addr(me.router),
+                    &RouterExec::AssertMinimumReceive { asset_info: me.info(*asset), prev_balance: Uint128::new(*prev), minimum_receive: Uint128::new(*min), receiver: me.astr(*rcv) },
+                    &me.coins(funds)),
+                Op::RReceive { s, funds, from, amount, hook } => app.execute_contract(
+                    me.addr(*s), me.addr(me.router),
+                    &RouterExec::Receive(cw20::Cw20ReceiveMsg { sender: me.astr(*from), amount: Uint128::new(*amount), msg: me.hook_bin(hook, true) }),
+                    &me.coins(funds)),
+                Op::FCfg { s, funds, owner } => app.execute_contract(
+                    me.addr(*s), me.addr(me.factory),
+                    &FacExec::UpdateConfig { owner: owner.map(|x| me.astr(x)), token_code_id: None, pair_code_id: None }, &me.coins(funds)),
+                Op::FCreate { s, funds, a0, a1, wl, min0, min1, comm } => app.execute_contract(
+                    me.addr(*s), me.addr(me.factory),
+                    &FacExec::CreatePair {
+                        asset_infos: [me.info(*a0), me.info(*a1)],
+                        requirements: CreatePairRequirements {
+                            whitelist: wl.iter().map(|x| me.addr(*x)).collect(),
+                            first_asset_minimum: Uint128::new(*min0),
+                            second_asset_minimum: Uint128::new(*min1),
+                        },
+                        commission_rate: comm.map(|c| Decimal256(bigint::U256::from_dec_str(&c.to_string()).unwrap())),
+                        lp_token_info: LPTokenInfo { lp_token_name: "halo-lp".into(), lp_token_symbol: "HALOLP".into(), lp_token_decimals: None },
+                    }, &me.coins(funds)),
+                Op::FAdd { s, funds, denom, decimals } => app.execute_contract(
+                    me.addr(*s), me.addr(me.factory),
+                    &FacExec::AddNativeTokenDecimals { denom: me.denoms[*denom as usize].clone(), decimals: *decimals }, &me.coins(funds)),
+                Op::FMig { s, funds, p } => app.execute_contract(
+                    me.addr(*s), me.addr(me.factory),
+                    &FacExec::MigratePair { contract: me.astr(*p), code_id: None }, &me.coins(funds)),
+            };
+            r.map_err(|e| format!("{:#}", e))
+        };
+        GUARDED.store(std::env::var("HALO_DEBUG").is_err(), Ordering::SeqCst);
+        let r = catch_unwind(AssertUnwindSafe(run));
+        GUARDED.store(false, Ordering::SeqCst);
+        match r {
+            Ok(x) => x,
+            Err(_) => Err("panic".into()),
+        }
+    }
+
+    fn attr(resp: &AppResponse, key: &str) -> Option<String> {
+        for e in &resp.events {
+            for a in &e.attributes {
+                if a.key == key {
+                    return Some(a.value.clone());
+                }
+            }
+        }
+        None
+    }
+
+    /// execute + print the step line + print changed observations
+    pub fn step(&mut self, op: Op) -> bool {
+        self.stepno += 1;
+        let res = self.exec(&op);
+        let mut line = format!("step seq={} i={} {} => ", self.seq, self.stepno, op);
+        let ok = res.is_ok();
+        match &res {
+            Ok(resp) => {
+                line.push_str("ok");
+                match &op {
+                    Op::Swap { .. } | Op::TokSend { hook: Hook::Swap { .. }, .. } | Op::PairReceive { hook: Hook::Swap { .. }, .. } => {
+                        if let (Some(a), Some(b), Some(c), Some(d)) = (
+                            Self::attr(resp, "offer_amount"), Self::attr(resp, "return_amount"),
+                            Self::attr(resp, "spread_amount"), Self::attr(resp, "commission_amount"),
+                        ) {
+                            line.push_str(&format!(" swap {a} {b} {c} {d}"));
+                        }
+                    }
+                    Op::Provide { .. } => {
+                        if let Some(s) = Self::attr(resp, "share") {
+                            line.push_str(&format!(" share {s}"));
+                        }
+                    }
+                    Op::TokSend { hook: Hook::Withdraw, .. } | Op::PairReceive { hook: Hook::Withdraw, .. } => {
+                        if let Some(s) = Self::attr(resp, "refund_assets") {
+                            // "<amt0><info0>, <amt1><info1>" — leading digits are the amounts
+                            let amts: Vec<String> = s.split(", ").map(|p| p.chars().take_while(|c| c.is_ascii_digit()).collect()).collect();
+                            if amts.len() == 2 {
+                                line.push_str(&format!(" refund {} {}", amts[0], amts[1]));
+                            }
+                        }
+                    }
+                    Op::FCreate { a0, a1, .. } => {
+                        let pa = Self::attr(resp, "pair_contract_addr").unwrap_or_default();
+                        let la = Self::attr(resp, "liquidity_token_addr").unwrap_or_default();
+                        let np = self.aid(&pa);
+                        let nl = self.aid(&la);
+                        line.push_str(&format!(" created {np} {nl}"));
+                        self.pairs.push(PairMeta { addr: np, lp: nl, a0: *a0, a1: *a1 });
+                        self.accounts.push(np);
+                        self.accounts.push(nl);
+                        self.assets.push(A::T(nl));
+                        writeln!(self.w, "{line}").unwrap();
+                        self.decl_asset(A::T(nl));
+                        self.observe();
+                        self.q_lookup(*a0, *a1);
+                        self.q_lookup(*a1, *a0);
+                        return true;
+                    }
+                    _ => {}
+                }
+            }
+            Err(e) => {
+                if std::env::var("HALO_DEBUG").is_ok() {
+                    { let m = e.replace('\n', " | "); let tail: String = m.chars().rev().take(160).collect::<Vec<_>>().into_iter().rev().collect(); eprintln!("step {} {} failed: …{}", self.stepno, op, tail); }
+                }
+                let class = if e.contains("Max spread assertion") || e.contains("Max slippage assertion") { "fail:guard" } else { "fail" };
+                line.push_str(class);
+            }
+        }
+        writeln!(self.w, "{line}").unwrap();
+        self.observe();
+        if let Op::FCreate { a0, a1, .. } = &op {
+            self.q_lookup(*a0, *a1);
+            self.q_lookup(*a1, *a0);
+        }
+        ok
+    }
+
+    fn put(&mut self, key: String, val: String) {
+        if self.last.get(&key) != Some(&val) {
+            writeln!(self.w, "obs {key} => {val}").unwrap();
+            self.last.insert(key, val);
+        }
+    }
+
+    fn wl_str(&self, wl: &[Addr]) -> String {
+        if wl.is_empty() {
+            "-".into()
+        } else {
+            wl.iter().map(|a| self.addr_id.get(a.as_str()).map(|i| i.to_string()).unwrap_or("?".into())).collect::<Vec<_>>().join(",")
+        }
+    }
+    fn info_id(&self, i: &AssetInfo) -> String {
+        match i {
+            AssetInfo::NativeToken { denom } => match self.denoms.iter().position(|d| d == denom) {
+                Some(p) => format!("n{p}"),
+                None => "n?".into(),
+            },
+            AssetInfo::Token { contract_addr } => match self.addr_id.get(contract_addr) {
+                Some(p) => format!("t{p}"),
+                None => "t?".into(),
+            },
+        }
+    }
+    fn pair_info_str(&self, pi: &PairInfo) -> String {
+        format!(
+            "{} {} {} {} {} {} {} {} {} {}",
+            self.addr_id.get(&pi.contract_addr).map(|x| x.to_string()).unwrap_or("?".into()),
+            self.info_id(&pi.asset_infos[0]), self.info_id(&pi.asset_infos[1]),
+            pi.asset_decimals[0], pi.asset_decimals[1],
+            self.addr_id.get(&pi.liquidity_token).map(|x| x.to_string()).unwrap_or("?".into()),
+            pi.commission_rate.0, self.wl_str(&pi.requirements.whitelist),
+            pi.requirements.first_asset_minimum, pi.requirements.second_asset_minimum
+        )
+    }
+
+    /// the full observable state; only changed entries are printed
+    pub fn observe(&mut self) {
+        let accounts = self.accounts.clone();
+        let assets = self.assets.clone();
+        for a in &assets {
+            for who in &accounts {
+                let v = self.bal(*a, *who);
+                self.put(format!("bal {a} {who}"), v.to_string());
+            }
+            if let A::T(t) = a {
+                let s = self.supply(*t);
+                self.put(format!("supply {t}"), s.to_string());
+            }
+        }
+        for (t, owner, spender) in self.allow_watch.clone() {
+            let r: cw20::AllowanceResponse = self.app.wrap()
+                .query_wasm_smart(self.astr(t), &Cw20QueryMsg::Allowance { owner: self.astr(owner), spender: self.astr(spender) }).unwrap();
+            self.put(format!("allow {t} {owner} {spender}"), r.allowance.to_string());
+        }
+        let cfg: ConfigResponse = self.app.wrap().query_wasm_smart(self.astr(self.factory), &FacQuery::Config {}).unwrap();
+        let oid = self.aid(&cfg.owner);
+        self.put("owner".into(), oid.to_string());
+        for d in 0..self.denoms.len() {
+            let r: Result<NativeTokenDecimalsResponse, _> =
+                self.app.wrap().query_wasm_smart(self.astr(self.factory), &FacQuery::NativeTokenDecimals { denom: self.denoms[d].clone() });
+            self.put(format!("denom {d}"), match r { Ok(x) => x.decimals.to_string(), Err(_) => "-".into() });
+        }
+        for pm in self.pairs.clone() {
+            let pi: PairInfo = self.app.wrap().query_wasm_smart(self.astr(pm.addr), &PairQuery::Pair {}).unwrap();
+            let s = self.pair_info_str(&pi);
+            self.put(format!("pair {}", pm.addr), s);
+            let pool: PoolResponse = self.app.wrap().query_wasm_smart(self.astr(pm.addr), &PairQuery::Pool {}).unwrap();
+            self.put(format!("pool {}", pm.addr), format!("{} {} {}", pool.assets[0].amount, pool.assets[1].amount, pool.total_share));
+            for (x, y) in [(pm.a0, pm.a1), (pm.a1, pm.a0)] {
+                let r: Result<PairInfo, _> = self.app.wrap()
+                    .query_wasm_smart(self.astr(self.factory), &FacQuery::Pair { asset_infos: [self.info(x), self.info(y)] });
+                let v = match r { Ok(pi) => self.pair_info_str(&pi), Err(_) => "none".into() };
+                self.put(format!("reg {x} {y}"), v);
+            }
+        }
+        // the whole listing, walked with the maximum page size
+        let mut all: Vec<String> = vec![];
+        let mut cursor: Option<[AssetInfo; 2]> = None;
+        for _ in 0..100 {
+            let r: PairsResponse = self.app.wrap()
+                .query_wasm_smart(self.astr(self.factory), &FacQuery::Pairs { start_after: cursor.clone(), limit: Some(30) }).unwrap();
+            if r.pairs.is_empty() {
+                break;
+            }
+            for pi in &r.pairs {
+                all.push(self.addr_id.get(&pi.contract_addr).map(|x| x.to_string()).unwrap_or("?".into()));
+            }
+            cursor = Some(r.pairs.last().unwrap().asset_infos.clone());
+        }
+        self.put("listing".into(), if all.is_empty() { "-".into() } else { all.join(",") });
+    }
+
+    // ---- queries emitted as their own lines (compared with the model's pure query functions)
+    pub fn q_sim(&mut self, p: u64, offer: A, amt: u128) {
+        let app_ptr: *const App = &self.app;
+        let me: &Env = self;
+        GUARDED.store(true, Ordering::SeqCst);
+        let r = catch_unwind(AssertUnwindSafe(|| {
+            let app: &App = unsafe { &*app_ptr };
+            app.wrap().query_wasm_smart::<SimulationResponse>(me.astr(p), &PairQuery::Simulation { offer_asset: Asset { info: me.info(offer), amount: Uint128::new(amt) } })
+        }));
+        GUARDED.store(false, Ordering::SeqCst);
+        let s = match r { Ok(Ok(x)) => format!("ok {} {} {}", x.return_amount, x.spread_amount, x.commission_amount), _ => "fail".into() };
+        writeln!(self.w, "query seq={} sim {p} {offer} {amt} => {s}", self.seq).unwrap();
+    }
+    pub fn q_rsim(&mut self, p: u64, ask: A, amt: u128) {
+        let app_ptr: *const App = &self.app;
+        let me: &Env = self;
+        GUARDED.store(true, Ordering::SeqCst);
+        let r = catch_unwind(AssertUnwindSafe(|| {
+            let app: &App = unsafe { &*app_ptr };
+            app.wrap().query_wasm_smart::<ReverseSimulationResponse>(me.astr(p), &PairQuery::ReverseSimulation { ask_asset: Asset { info: me.info(ask), amount: Uint128::new(amt) } })
+        }));
+        GUARDED.store(false, Ordering::SeqCst);
+        let s = match r { Ok(Ok(x)) => format!("ok {} {} {}", x.offer_amount, x.spread_amount, x.commission_amount), _ => "fail".into() };
+        writeln!(self.w, "query seq={} rsim {p} {ask} {amt} => {s}", self.seq).unwrap();
+    }
+    pub fn q_router(&mut self, reverse: bool, amt: u128, ops: &[(A, A)]) {
+        let app_ptr: *const App = &self.app;
+        let me: &Env = self;
+        GUARDED.store(true, Ordering::SeqCst);
+        let r = catch_unwind(AssertUnwindSafe(|| {
+            let app: &App = unsafe { &*app_ptr };
+            let q = if reverse {
+                RouterQuery::ReverseSimulateSwapOperations { ask_amount: Uint128::new(amt), operations: me.swap_ops(ops) }
+            } else {
+                RouterQuery::SimulateSwapOperations { offer_amount: Uint128::new(amt), operations: me.swap_ops(ops) }
+            };
+            app.wrap().query_wasm_smart::<SimulateSwapOperationsResponse>(me.astr(me.router), &q)
+        }));
+        GUARDED.store(false, Ordering::SeqCst);
+        let s = match r { Ok(Ok(x)) => format!("ok {}", x.amount), _ => "fail".into() };
+        writeln!(self.w, "query seq={} {} {amt} {} => {s}", self.seq, if reverse { "rrev" } else { "rsimops" }, ops_str(ops)).unwrap();
+    }
+    pub fn q_lookup(&mut self, a: A, b: A) {
+        let r: Result<PairInfo, _> = self.app.wrap()
+            .query_wasm_smart(self.astr(self.factory), &FacQuery::Pair { asset_infos: [self.info(a), self.info(b)] });
+        let s = match r { Ok(pi) => self.pair_info_str(&pi), Err(_) => "none".into() };
+        writeln!(self.w, "query seq={} lookup {a} {b} => ok {s}", self.seq).unwrap();
+    }
+    pub fn q_pairs(&mut self, start: Option<(A, A)>, limit: Option<u32>) {
+        let r: Result<PairsResponse, _> = self.app.wrap().query_wasm_smart(
+            self.astr(self.factory),
+            &FacQuery::Pairs { start_after: start.map(|(a, b)| [self.info(a), self.info(b)]), limit },
+        );
+        let s = match r {
+            Ok(x) => {
+                let v: Vec<String> = x.pairs.iter().map(|pi| self.addr_id.get(&pi.contract_addr).map(|x| x.to_string()).unwrap_or("?".into())).collect();
+                format!("ok {}", if v.is_empty() { "-".into() } else { v.join(",") })
+            }
+            Err(_) => "fail".into(),
+        };
+        writeln!(self.w, "query seq={} pairs {} {} => {s}", self.seq,
+            match start { Some((a, b)) => format!("{a},{b}"), None => "-".into() }, o(&limit)).unwrap();
+    }
+}
+
+/// build the fixed part of a world from the sequence seed and print its declarations
+pub fn setup<'a>(w: &'a mut dyn Write, seq: u64, seed: u64, family: &str) -> (Env<'a>, Rng) {
+    let mut r = Rng::new(seed.wrapping_mul(0x9E3779B97F4A7C15) ^ seq.wrapping_mul(0xD1B54A32D192ED03));
+    // magnitude profile of this sequence
+    let big = r.below(4) == 0;
+    let unit: u128 = if big { 1u128 << r.range(63, 88) } else { 10u128.pow(r.range(3, 12) as u32) };
+    let users: Vec<String> = USER_NAMES.iter().map(|s| s.to_string()).collect();
+    let denoms: Vec<String> = DENOMS.iter().map(|(d, _)| d.to_string()).collect();
+    let init: Vec<(String, Vec<Coin>)> = users
+        .iter()
+        .map(|u| {
+            (u.clone(), denoms.iter().map(|d| Coin { denom: d.clone(), amount: Uint128::new(unit.saturating_mul(1_000_000).min(1u128 << 120)) }).collect())
+        })
+        .collect();
+    let mut app = AppBuilder::new().build(|router, _, storage| {
+        for (u, coins) in &init {
+            router.bank.init_balance(storage, &Addr::unchecked(u.clone()), coins.clone()).unwrap();
+        }
+    });
+    let fcode = app.store_code(c_factory());
+    let pcode = app.store_code(c_pair());
+    let rcode = app.store_code(c_router());
+    let tcode = app.store_code(c_token());
+    let owner = Addr::unchecked(users[0].clone());
+    let factory = app
+        .instantiate_contract(fcode, owner.clone(), &FacInit { pair_code_id: pcode, token_code_id: tcode }, &[], "factory", None)
+        .unwrap();
+    let router = app
+        .instantiate_contract(rcode, owner.clone(), &RouterInit { halo_factory: factory.to_string() }, &[], "router", None)
+        .unwrap();
+    let mut env = Env {
+        app, w, addr_id: HashMap::new(), addrs: vec![], denoms, factory: 0, router: 0, users: vec![], tokens: vec![], pairs: vec![],
+        accounts: vec![], assets: vec![], allow_watch: vec![], last: HashMap::new(), seq, stepno: 0, token_code: tcode, pair_code: pcode,
+    };
+    writeln!(env.w, "begin seq={seq} seed={seed} family={family}").unwrap();
+    for u in &users {
+        let i = env.aid(u);
+        env.users.push(i);
+        env.accounts.push(i);
+    }
+    env.factory = env.aid(factory.as_str());
+    env.router = env.aid(router.as_str());
+    env.accounts.push(env.factory);
+    env.accounts.push(env.router);
+    writeln!(env.w, "fac {} owner={}", env.factory, env.users[0]).unwrap();
+    writeln!(env.w, "router {}", env.router).unwrap();
+    for d in 0..env.denoms.len() {
+        env.assets.push(A::N(d as u64));
+        env.decl_asset(A::N(d as u64));
+    }
+    // cw20 tokens with different decimals, balances spread over the users
+    for (k, dec) in [(0usize, 6u8), (1, 18), (2, 8)] {
+        let bals: Vec<Cw20Coin> = users.iter().map(|u| Cw20Coin { address: u.clone(), amount: Uint128::new(unit.saturating_mul(1_000_000).min(1u128 << 120)) }).collect();
+        let t = env
+            .app
+            .instantiate_contract(
+                env.token_code, owner.clone(),
+                &cw20_base::msg::InstantiateMsg {
+                    name: format!("token{k}"), symbol: "TOK".into(), decimals: dec, initial_balances: bals.clone(),
+                    mint: Some(MinterResponse { minter: users[0].clone(), cap: None }), marketing: None,
+                },
+                &[], "token", None,
+            )
+            .unwrap();
+        let tid = env.aid(t.as_str());
+        env.tokens.push(tid);
+        env.accounts.push(tid);
+        env.assets.push(A::T(tid));
+        let total: u128 = bals.iter().map(|b| b.amount.u128()).sum();
+        writeln!(env.w, "token {tid} decimals={dec} minter={} supply={total}", env.users[0]).unwrap();
+        env.decl_asset(A::T(tid));
+        for (u, b) in users.iter().zip(bals.iter()) {
+            let uid = env.addr_id[u];
+            writeln!(env.w, "tbal {tid} {uid} {}", b.amount).unwrap();
+        }
+    }
+    for u in 0..users.len() {
+        for d in 0..env.denoms.len() {
+            let v = env.bal(A::N(d as u64), env.users[u]);
+            writeln!(env.w, "bank {} {d} {v}", env.users[u]).unwrap();
+        }
+    }
+    writeln!(env.w, "unit {unit}").unwrap();
+    env.observe();
+    (env, r)
+}
+
+fn pick_rate(r: &mut Rng) -> u128 {
+    match r.below(8) {
+        0 => 0,
+        1 => E18,
+        2 => 3_000_000_000_000_000,
+        3 => 30_000_000_000_000_000,
+        4 => 1,
+        5 => E18 - 1,
+        _ => r.below(E18 as u64 / 10) as u128,
+    }
+}
+
+/// amount relative to a reference value: dust … multiples
+fn amt_rel(r: &mut Rng, reference: u128) -> u128 {
+    match r.below(16) {
+        0 => 0,
+        1 => 1,
+        2 => reference,
+        3 | 8 | 9 | 10 => reference / (1 + r.below(1000) as u128),
+        4 => reference.saturating_mul(1 + r.below(50) as u128),
+        5 | 11 => reference / 2 + r.below(3) as u128,
+        _ => {
+            if reference == 0 {
+                r.below(1000) as u128
+            } else {
+                r.u128_raw() % reference.saturating_add(1)
+            }
+        }
+    }
+}
+
+pub struct Gen {
+    pub unit: u128,
+}
+
+impl Gen {
+    fn user(&self, e: &Env, r: &mut Rng) -> u64 {
+        e.users[r.range(1, 4) as usize]
+    }
+    fn any_asset(&self, e: &Env, r: &mut Rng) -> A {
+        if r.chance(1, 2) {
+            A::N(r.below(e.denoms.len() as u64))
+        } else {
+            A::T(*r.pick(&e.tokens))
+        }
+    }
+    fn funds_for(&self, r: &mut Rng, assets: &[(A, u128)]) -> Coins {
+        let mut c: Coins = vec![];
+        for (a, amt) in assets {
+            if let A::N(d) = a {
+                c.push((*d, *amt));
+            }
+        }
+        match r.below(40) {
+            0 if !c.is_empty() => { c[0].1 = c[0].1.saturating_add(1); }
+            1 if !c.is_empty() => { c[0].1 = c[0].1.saturating_sub(1); }
+            2 if !c.is_empty() => { c.remove(0); }
+            3 => { c.push((r.below(6), 1 + r.below(1000) as u128)); }
+            4 => { c.insert(0, (r.below(6), r.below(3) as u128)); }
+            _ => {}
+        }
+        // a chain validates coins as sorted and duplicate-free before a contract runs; cw-multi-test does not.
+        // Duplicated denoms are exercised in the `assert_sent` function family only.
+        let mut seen: Vec<u64> = vec![];
+        c.retain(|(d, _)| if seen.contains(d) { false } else { seen.push(*d); true });
+        c
+    }
+
+    pub fn setup_pairs(&self, e: &mut Env, r: &mut Rng, npairs: usize) {
+        let owner = e.users[0];
+        // factory needs a balance of a denom to register it
+        let coins: Coins = (0..e.denoms.len() as u64).map(|d| (d, 1u128)).collect();
+        e.step(Op::BankSend { s: owner, d: e.factory, coins });
+        for d in 0..e.denoms.len() {
+            if d == 5 && r.chance(1, 2) {
+                continue; // sometimes leave one denom unregistered
+            }
+            e.step(Op::FAdd { s: owner, funds: vec![], denom: d as u64, decimals: DENOMS[d].1 });
+        }
+        let mut tries = 0;
+        while e.pairs.len() < npairs && tries < npairs * 4 {
+            tries += 1;
+            let a0 = self.any_asset(e, r);
+            let a1 = self.any_asset(e, r);
+            let wl: Vec<u64> = match r.below(3) {
+                0 => vec![e.users[0], e.users[1]],
+                1 => e.users[0..5].to_vec(),
+                _ => vec![e.users[1], e.users[2], e.users[3]],
+            };
+            let comm = match r.below(5) { 0 => None, _ => Some(pick_rate(r)) };
+            let mu = self.unit.min(1u128 << 62) / 1000;
+            let m0 = r.below(3) as u128 * mu;
+            let m1 = r.below(3) as u128 * mu;
+            e.step(Op::FCreate { s: owner, funds: vec![], a0, a1, wl, min0: m0, min1: m1, comm });
+        }
+        // allowances toward the pairs, including from bystanders that never act
+        for pm in e.pairs.clone() {
+            for a in [pm.a0, pm.a1] {
+                if let A::T(t) = a {
+                    for (ui, u) in e.users.clone().iter().take(5).enumerate() {
+                        if ui == 1 || ui == 2 || r.chance(3, 4) {
+                            let amt = if ui >= 3 && r.chance(1, 4) { r.below(1000) as u128 } else { u128::MAX / 4 };
+                            e.step(Op::TokInc { t, owner: *u, spender: pm.addr, amt });
+                            if !e.allow_watch.contains(&(t, *u, pm.addr)) {
+                                e.allow_watch.push((t, *u, pm.addr));
+                            }
+                        }
+                    }
+                }
+            }
+        }
+        // seed liquidity from a whitelisted user
+        for pm in e.pairs.clone() {
+            if r.chance(5, 6) {
+                let s = e.users[1];
+                // the first deposit must keep d0*d1 below 2^128 (native u128 product in the share formula)
+                let cap = 1u128 << 62;
+                let d0 = self.unit.saturating_mul(1 + r.below(1000) as u128).min(cap - r.below(1000) as u128);
+                let d1 = (self.unit.saturating_mul(1 + r.below(1000) as u128) / (1 + r.below(3) as u128)).min(cap - r.below(1000) as u128);
+                let funds = self.plain_funds(&[(pm.a0, d0), (pm.a1, d1)]);
+                e.step(Op::Provide { s, p: pm.addr, funds, as0: pm.a0, am0: d0, as1: pm.a1, am1: d1, tol: None, rcv: None });
+                if self.unit > cap && r.chance(2, 3) {
+                    // deep pools are reached by donation (reserves up to ~2^96 keep x*y*1e18 below 2^256)
+                    for a in [pm.a0, pm.a1] {
+                        let amt = self.unit.saturating_mul(1 + r.below(100) as u128).min(1u128 << 94);
+                        match a {
+                            A::N(d) => { e.step(Op::BankSend { s, d: pm.addr, coins: vec![(d, amt)] }); }
+                            A::T(t) => { e.step(Op::TokTransfer { t, s, d: pm.addr, amt }); }
+                        }
+                    }
+                }
+            }
+        }
+    }
+    fn plain_funds(&self, assets: &[(A, u128)]) -> Coins {
+        assets.iter().filter_map(|(a, amt)| if let A::N(d) = a { Some((*d, *amt)) } else { None }).collect()
+    }
+
+    fn route(&self, e: &Env, r: &mut Rng) -> Vec<(A, A)> {
+        // a chain through the pair graph, 1..4 hops; sometimes malformed
+        let mut ops = vec![];
+        if e.pairs.is_empty() {
+            return ops;
+        }
+        let first = r.pick(&e.pairs).clone();
+        let (mut cur_from, mut cur_to) = if r.chance(1, 2) { (first.a0, first.a1) } else { (first.a1, first.a0) };
+        ops.push((cur_from, cur_to));
+        let hops = r.range(1, 4);
+        for _ in 1..hops {
+            let cands: Vec<&PairMeta> = e.pairs.iter().filter(|p| (p.a0 == cur_to && p.a1 != cur_from) || (p.a1 == cur_to && p.a0 != cur_from)).collect();
+            if cands.is_empty() {
+                break;
+            }
+            let n = (*r.pick(&cands)).clone();
+            let nxt = if n.a0 == cur_to { n.a1 } else { n.a0 };
+            cur_from = cur_to;
+            cur_to = nxt;
+            ops.push((cur_from, cur_to));
+        }
+        match r.below(16) {
+            0 => ops.clear(),
+            1 => ops.push((self.any_asset(e, r), self.any_asset(e, r))), // dangling / unchained
+            2 if ops.len() > 1 => { ops.swap(0, 1); }
+            3 => { let x = ops[0]; ops.push(x); }
+            _ => {}
+        }
+        ops
+    }
+
+    /// one generated operation against the live state (mostly valid, with a malformed stream mixed in)
+    pub fn gen_op(&self, e: &mut Env, r: &mut Rng, family: &str) -> Option<Op> {
+        let u = self.user(e, r);
+        if e.pairs.is_empty() {
+            return Some(Op::BankSend { s: u, d: e.users[1], coins: vec![(0, 1)] });
+        }
+        let pm = r.pick(&e.pairs).clone();
+        let r0 = e.bal(pm.a0, pm.addr);
+        let r1 = e.bal(pm.a1, pm.addr);
+        let weights: &[(u32, &str)] = match family {
+            "swap" => &[(40, "swap"), (8, "provide"), (4, "withdraw"), (4, "donate"), (6, "forged"), (4, "misc")],
+            "liquidity" => &[(10, "swap"), (30, "provide"), (25, "withdraw"), (6, "donate"), (4, "forged"), (4, "misc"), (3, "lpmove")],
+            "route" => &[(10, "swap"), (4, "provide"), (2, "withdraw"), (45, "route"), (4, "donate"), (6, "rauth"), (3, "misc")],
+            "factory" => &[(5, "swap"), (5, "provide"), (30, "factory"), (6, "misc"), (6, "auth")],
+            "auth" => &[(5, "swap"), (5, "provide"), (30, "auth"), (10, "forged"), (10, "rauth"), (10, "factory")],
+            _ => &[(20, "swap"), (15, "provide"), (12, "withdraw"), (15, "route"), (6, "donate"), (6, "forged"), (5, "misc"), (6, "factory"), (5, "auth"), (4, "rauth"), (3, "lpmove")],
+        };
+        let total: u32 = weights.iter().map(|w| w.0).sum();
+        let mut x = r.below(total as u64) as u32;
+        let mut kind = weights[0].1;
+        for (wgt, k) in weights {
+            if x < *wgt {
+                kind = k;
+                break;
+            }
+            x -= wgt;
+        }
+        let to = match r.below(5) { 0 => Some(self.user(e, r)), 1 => Some(u), _ => None };
+        Some(match kind {
+            "swap" => {
+                let (offer, ro) = if r.chance(1, 2) { (pm.a0, r0) } else { (pm.a1, r1) };
+                let amt = match r.below(6) { 0 => amt_rel(r, ro), 1 => 1 + r.below(1_000_000) as u128, _ => ro / (1 + r.below(200) as u128) + r.below(3) as u128 };
+                let (belief, ms) = match r.below(6) {
+                    0 => (Some(1 + r.below(E18 as u64 * 3) as u128), Some(pick_rate(r))),
+                    1 => (None, Some(pick_rate(r))),
+                    2 => (Some(E18), None),
+                    _ => (None, None),
+                };
+                // named asset: mostly the delivered one
+                let named = match r.below(24) { 0 => if offer == pm.a0 { pm.a1 } else { pm.a0 }, 1 => self.any_asset(e, r), _ => offer };
+                let named_amt = match r.below(36) { 0 => amt.saturating_add(1), 1 => amt.saturating_sub(1), 2 => 0, _ => amt };
+                match offer {
+                    A::N(_) => {
+                        let funds = self.funds_for(r, &[(offer, amt)]);
+                        Op::Swap { s: u, p: pm.addr, funds, offer: named, amt: named_amt, belief, ms, to }
+                    }
+                    A::T(t) => {
+                        if r.chance(1, 15) {
+                            // token offer through execute-swap (must be rejected)
+                            Op::Swap { s: u, p: pm.addr, funds: vec![], offer: named, amt: named_amt, belief, ms, to }
+                        } else {
+                            Op::TokSend { t, s: u, d: pm.addr, amt, hook: Hook::Swap { offer: named, amt: named_amt, belief, ms, to } }
+                        }
+                    }
+                }
+            }
+            "provide" => {
+                let sup = e.supply(pm.lp);
+                let s = if sup == 0 && r.chance(2, 3) { e.users[1] } else { u };
+                let (d0, d1) = if sup == 0 || r0 == 0 || r1 == 0 {
+                    (amt_rel(r, self.unit * 10), amt_rel(r, self.unit * 10))
+                } else {
+                    match r.below(4) {
+                        0 => (amt_rel(r, r0), amt_rel(r, r1)),
+                        _ => {
+                            let f = 1 + r.below(500) as u128;
+                            let skew = r.below(5) as u128;
+                            (r0 / f + skew, r1 / f + r.below(3) as u128)
+                        }
+                    }
+                };
+                let tol = match r.below(20) { 0 | 1 | 2 => Some(pick_rate(r)), 3 | 4 | 5 | 6 => Some(E18 / 100), 7 => Some(E18 + 1), 8 => Some(E18 / 2), _ => None };
+                let (x0, x1) = match r.below(14) {
+                    0 => (self.any_asset(e, r), pm.a1),
+                    1 => (pm.a0, pm.a0),
+                    2 => (pm.a1, pm.a0), // swapped order is legal
+                    _ => (pm.a0, pm.a1),
+                };
+                let (m0, m1) = if x0 == pm.a1 && x1 == pm.a0 { (d1, d0) } else { (d0, d1) };
+                let funds = self.funds_for(r, &[(x0, m0), (x1, m1)]);
+                let rcv = match r.below(5) { 0 => Some(self.user(e, r)), _ => None };
+                Op::Provide { s, p: pm.addr, funds, as0: x0, am0: m0, as1: x1, am1: m1, tol, rcv }
+            }
+            "withdraw" => {
+                let holders: Vec<u64> = e.users[1..5].iter().copied().filter(|h| e.bal(A::T(pm.lp), *h) > 0).collect();
+                let holder = if holders.is_empty() || r.chance(1, 10) { *r.pick(&e.users[1..5].to_vec()) } else { *r.pick(&holders) };
+                let b = e.bal(A::T(pm.lp), holder);
+                let amt = match r.below(8) { 0 => amt_rel(r, b), 1 => b, 2 => b.saturating_add(1), _ => b / (1 + r.below(20) as u128) + 1 };
+                Op::TokSend { t: pm.lp, s: holder, d: pm.addr, amt, hook: Hook::Withdraw }
+            }
+            "lpmove" => {
+                let holder = *r.pick(&e.users[1..5].to_vec());
+                let b = e.bal(A::T(pm.lp), holder);
+                if r.chance(1, 2) {
+                    Op::TokTransfer { t: pm.lp, s: holder, d: self.user(e, r), amt: b / (2 + r.below(5) as u128) }
+                } else {
+                    Op::TokBurn { t: pm.lp, s: holder, amt: b / (3 + r.below(5) as u128) }
+                }
+            }
+            "donate" => {
+                let a = if r.chance(1, 2) { pm.a0 } else { pm.a1 };
+                let amt = amt_rel(r, self.unit);
+                let dst = if r.chance(1, 6) { e.router } else { pm.addr };
+                match a {
+                    A::N(d) => Op::BankSend { s: u, d: dst, coins: vec![(d, amt)] },
+                    A::T(t) => Op::TokTransfer { t, s: u, d: dst, amt },
+                }
+            }
+            "forged" => {
+                let amt = amt_rel(r, self.unit);
+                let named = match r.below(3) { 0 => pm.a0, 1 => pm.a1, _ => self.any_asset(e, r) };
+                let hook = match r.below(4) {
+                    0 => Hook::Withdraw,
+                    1 => Hook::Garbage,
+                    _ => Hook::Swap { offer: named, amt: if r.chance(3, 4) { amt } else { amt + 1 }, belief: None, ms: None, to },
+                };
+                match r.below(3) {
+                    // a raw Receive from an arbitrary caller (a rogue contract / user)
+                    0 => Op::PairReceive { s: u, p: pm.addr, funds: vec![], from: self.user(e, r), amount: amt, hook },
+                    // a real cw20 (possibly foreign to the pair) delivering a hook
+                    1 => Op::TokSend { t: *r.pick(&e.tokens), s: u, d: pm.addr, amt, hook },
+                    // the LP token delivering a swap hook / a pair asset delivering a withdraw hook
+                    _ => {
+                        let t = match r.below(3) { 0 => pm.lp, _ => match pm.a0 { A::T(t) => t, _ => match pm.a1 { A::T(t) => t, _ => pm.lp } } };
+                        let b = e.bal(A::T(t), u);
+                        Op::TokSend { t, s: u, d: pm.addr, amt: b / (2 + r.below(100) as u128), hook }
+                    }
+                }
+            }
+            "route" => {
+                let ops = self.route(e, r);
+                let first_offer = ops.first().map(|x| x.0).unwrap_or(pm.a0);
+                let bal_u = e.bal(first_offer, u);
+                let rr = e.bal(first_offer, pm.addr);
+                let amt = match r.below(5) { 0 => amt_rel(r, bal_u / 1000), 1 => 1 + r.below(1_000_000) as u128, _ => (rr / (1 + r.below(300) as u128)).min(bal_u / 2) + r.below(2) as u128 };
+                // quote first (forward simulation), then possibly let another trader move the pool
+                e.q_router(false, amt, &ops);
+                let quoted = self.sim_route(e, amt, &ops);
+                if r.chance(1, 4) {
+                    let other = e.users[3];
+                    let (offer, ro) = (pm.a0, r0);
+                    let a2 = ro / (50 + r.below(200) as u128) + 1;
+                    match offer {
+                        A::N(d) => { e.step(Op::Swap { s: other, p: pm.addr, funds: vec![(d, a2)], offer, amt: a2, belief: None, ms: None, to: None }); }
+                        A::T(t) => { e.step(Op::TokSend { t, s: other, d: pm.addr, amt: a2, hook: Hook::Swap { offer, amt: a2, belief: None, ms: None, to: None } }); }
+                    }
+                    e.q_router(false, amt, &ops);
+                }
+                let quoted2 = self.sim_route(e, amt, &ops).or(quoted);
+                let min = match r.below(7) {
+                    0 => None,
+                    1 => quoted2.map(|q| q.saturating_sub(1)),
+                    2 => quoted2,
+                    3 => quoted2.map(|q| q.saturating_add(1)),
+                    4 => Some(u128::MAX),
+                    5 => Some(0),
+                    _ => quoted.map(|q| q - q / 100),
+                };
+                match first_offer {
+                    A::N(d) => {
+                        let funds = match r.below(12) { 0 => vec![], 1 => vec![(d, amt), ((d + 1 + r.below(5)) % 6, 5)], _ => vec![(d, amt)] };
+                        Op::ROps { s: u, funds, ops, min, to }
+                    }
+                    A::T(t) => {
+                        if r.chance(1, 12) {
+                            Op::ROps { s: u, funds: vec![], ops, min, to }
+                        } else {
+                            Op::TokSend { t, s: u, d: e.router, amt, hook: Hook::ROps { ops, min, to } }
+                        }
+                    }
+                }
+            }
+            "rauth" => match r.below(4) {
+                0 => Op::ROp { s: u, funds: vec![], offer: pm.a0, ask: pm.a1, to },
+                1 => Op::RAssert { s: u, funds: vec![], asset: pm.a0, prev: 0, min: r.below(2) as u128, rcv: u },
+                2 => Op::RReceive { s: u, funds: vec![], from: self.user(e, r), amount: r.below(1000) as u128,
+                        hook: Hook::ROps { ops: vec![(pm.a0, pm.a1)], min: None, to } },
+                _ => Op::TokSend { t: *r.pick(&e.tokens), s: u, d: e.router, amt: 1 + r.below(1000) as u128, hook: Hook::Garbage },
+            },
+            "factory" => {
+                // current owner as the implementation reports it
+                let cfg: ConfigResponse = e.app.wrap().query_wasm_smart(e.astr(e.factory), &FacQuery::Config {}).unwrap();
+                let owner = e.aid(&cfg.owner);
+                let s = if r.chance(5, 6) { owner } else { u };
+                match r.below(10) {
+                    0 | 1 | 2 => {
+                        let a0 = self.any_asset(e, r);
+                        let a1 = if r.chance(1, 10) { a0 } else { self.any_asset(e, r) };
+                        let comm = match r.below(5) { 0 => None, 1 => Some(E18 + 1), _ => Some(pick_rate(r)) };
+                        Op::FCreate { s, funds: vec![], a0, a1, wl: vec![e.users[1], e.users[2]], min0: 0, min1: 0, comm }
+                    }
+                    3 | 4 | 5 | 6 => {
+                        let d = r.below(e.denoms.len() as u64);
+                        Op::FAdd { s, funds: vec![], denom: d, decimals: r.below(19) as u8 }
+                    }
+                    7 => Op::FMig { s, funds: vec![], p: if r.chance(4, 5) { pm.addr } else { u } },
+                    8 => Op::FCfg { s, funds: vec![], owner: None },
+                    _ => {
+                        // hand ownership over (and, next time, possibly back)
+                        let new = if owner == e.users[0] { e.users[5] } else { e.users[0] };
+                        Op::FCfg { s, funds: vec![], owner: Some(new) }
+                    }
+                }
+            }
+            "auth" => {
+                // every privileged / internal entry point from every caller role
+                let roles = [e.users[0], e.users[5], u, e.factory, e.router, pm.addr, pm.lp];
+                let s = *r.pick(&roles);
+                let s = if (s as usize) < 6 { s } else { u }; // contracts cannot originate calls; a user stands in
+                match r.below(7) {
+                    0 => Op::FCfg { s, funds: vec![], owner: Some(s) },
+                    1 => Op::FCreate { s, funds: vec![], a0: A::N(0), a1: A::T(e.tokens[2]), wl: vec![s], min0: 0, min1: 0, comm: None },
+                    2 => Op::FAdd { s, funds: vec![], denom: r.below(6), decimals: 7 },
+                    3 => Op::FMig { s, funds: vec![], p: pm.addr },
+                    4 => Op::PairUpd { s, p: pm.addr, funds: vec![], denom: r.below(6), da: 9, db: 9 },
+                    5 => Op::ROp { s, funds: vec![], offer: pm.a0, ask: pm.a1, to: Some(s) },
+                    _ => Op::RAssert { s, funds: vec![], asset: pm.a1, prev: 0, min: 0, rcv: s },
+                }
+            }
+            _ => {
+                // misc: simulations and bookkeeping moves
+                match r.below(5) {
+                    0 => { e.q_sim(pm.addr, pm.a0, amt_rel(r, r0)); }
+                    1 => { e.q_rsim(pm.addr, pm.a1, amt_rel(r, r1 / 2)); }
+                    2 => { let ops = self.route(e, r); e.q_router(true, amt_rel(r, self.unit), &ops); }
+                    3 => { let ops = self.route(e, r); e.q_router(false, amt_rel(r, self.unit), &ops); }
+                    _ => { e.q_rsim(pm.addr, self.any_asset(e, r), 5); }
+                }
+                let a = self.any_asset(e, r);
+                match a {
+                    A::N(d) => Op::BankSend { s: u, d: self.user(e, r), coins: vec![(d, amt_rel(r, self.unit))] },
+                    A::T(t) => Op::TokTransfer { t, s: u, d: self.user(e, r), amt: amt_rel(r, self.unit) },
+                }
+            }
+        })
+    }
+
+    fn sim_route(&self, e: &Env, amt: u128, ops: &[(A, A)]) -> Option<u128> {
+        if ops.is_empty() {
+            return None;
+        }
+        let app_ptr: *const App = &e.app;
+        GUARDED.store(true, Ordering::SeqCst);
+        let r = catch_unwind(AssertUnwindSafe(|| {
+            let app: &App = unsafe { &*app_ptr };
+            app.wrap().query_wasm_smart::<SimulateSwapOperationsResponse>(
+                e.astr(e.router),
+                &RouterQuery::SimulateSwapOperations { offer_amount: Uint128::new(amt), operations: e.swap_ops(ops) },
+            )
+        }));
+        GUARDED.store(false, Ordering::SeqCst);
+        match r {
+            Ok(Ok(x)) => Some(x.amount.u128()),
+            _ => None,
+        }
+    }
+}
+
+fn pre_queries(e: &mut Env, op: &Op) {
+    // quote immediately before a swap, so the driver can compare quote and execution (C12)
+    match op {
+        Op::Swap { p, offer, amt, .. } => e.q_sim(*p, *offer, *amt),
+        Op::TokSend { d, hook: Hook::Swap { offer, amt, .. }, .. } if e.pairs.iter().any(|pm| pm.addr == *d) => e.q_sim(*d, *offer, *amt),
+        _ => {}
+    }
+}
+
+pub fn run(w: &mut dyn Write, family: &str, nseq: u64, nsteps: u64, seed: u64) {
+    for seq in 1..=nseq {
+        let (mut e, mut r) = setup(w, seq, seed, family);
+        let unit: u128 = {
+            // recover the unit from the first user's balance
+            let b = e.bal(A::N(0), e.users[1]);
+            (b / 1_000_000).max(1)
+        };
+        let g = Gen { unit };
+        let npairs = match family {
+            "factory" => r.range(1, 3) as usize,
+            _ => r.range(2, 5) as usize,
+        };
+        g.setup_pairs(&mut e, &mut r, npairs);
+        if family == "factory" {
+            // many pairs over few denoms: the fan-out and the pagination need more than one page
+            let extra = r.range(0, 14);
+            for _ in 0..extra {
+                let a0 = g.any_asset(&e, &mut r);
+                let a1 = g.any_asset(&e, &mut r);
+                let owner = e.users[0];
+                e.step(Op::FCreate { s: owner, funds: vec![], a0, a1, wl: vec![e.users[1]], min0: 0, min1: 0, comm: None });
+            }
+        }
+        for _ in 0..nsteps {
+            if let Some(op) = g.gen_op(&mut e, &mut r, family) {
+                pre_queries(&mut e, &op);
+                e.step(op);
+                if family == "factory" && r.chance(1, 4) {
+                    let lim = match r.below(4) { 0 => None, 1 => Some(r.range(1, 5) as u32), 2 => Some(40), _ => Some(r.range(1, 31) as u32) };
+                    let start = if r.chance(1, 2) || e.pairs.is_empty() { None } else { let pm = r.pick(&e.pairs).clone(); Some(if r.chance(1, 2) { (pm.a0, pm.a1) } else { (pm.a1, pm.a0) }) };
+                    e.q_pairs(start, lim);
+                }
+            }
+        }
+        let seqn = e.seq;
+        writeln!(e.w, "end seq={seqn}").unwrap();
+    }
+}
+
+/// replay: rebuild the world of each `begin` line from its seed and execute the recorded steps / queries
+pub fn replay(w: &mut dyn Write, lines: &[String]) {
+    let mut i = 0;
+    while i < lines.len() {
+        let l = &lines[i];
+        if let Some(rest) = l.strip_prefix("begin ") {
+            let kv: HashMap<&str, &str> = rest.split(' ').filter_map(|t| t.split_once('=')).collect();
+            let seq: u64 = kv["seq"].parse().unwrap();
+            let seed: u64 = kv["seed"].parse().unwrap();
+            let family = kv.get("family").copied().unwrap_or("mixed").to_string();
+            let (mut e, _r) = setup(w, seq, seed, &family);
+            i += 1;
+            while i < lines.len() && !lines[i].starts_with("end ") && !lines[i].starts_with("begin ") {
+                let l = &lines[i];
+                if l.starts_with("step ") {
+                    let lhs = l.split(" => ").next().unwrap();
+                    let toks: Vec<&str> = lhs.split(' ').filter(|t| !t.is_empty()).collect();
+                    // step seq=.. i=.. <op…>
+                    let op = parse_op(&toks[3..]);
+                    if let Op::TokInc { t, owner, spender, .. } = &op {
+                        if !e.allow_watch.contains(&(*t, *owner, *spender)) {
+                            e.allow_watch.push((*t, *owner, *spender));
+                        }
+                    }
+                    e.step(op);
+                } else if l.starts_with("query ") {
+                    let lhs = l.split(" => ").next().unwrap();
+                    let t: Vec<&str> = lhs.split(' ').filter(|t| !t.is_empty()).collect();
+                    match t[2] {
+                        "sim" => e.q_sim(t[3].parse().unwrap(), parse_asset(t[4]), t[5].parse().unwrap()),
+                        "rsim" => e.q_rsim(t[3].parse().unwrap(), parse_asset(t[4]), t[5].parse().unwrap()),
+                        "rsimops" => e.q_router(false, t[3].parse().unwrap(), &parse_ops(t[4])),
+                        "rrev" => e.q_router(true, t[3].parse().unwrap(), &parse_ops(t[4])),
+                        "lookup" => e.q_lookup(parse_asset(t[3]), parse_asset(t[4])),
+                        "pairs" => {
+                            let start = if t[3] == "-" { None } else { let (a, b) = t[3].split_once(',').unwrap(); Some((parse_asset(a), parse_asset(b))) };
+                            e.q_pairs(start, po(t[4]));
+                        }
+                        _ => {}
+                    }
+                }
+                i += 1;
+            }
+            let seqn = e.seq;
+            writeln!(e.w, "end seq={seqn}").unwrap();
+        }
+        i += 1;
+    }
+}
